@@ -655,7 +655,8 @@ def run_c17(rep, tier, seed):
     junk = ["", "hello", "https://puzz.link/p?", "https://puzz.link/p?nurikabe", "https://puzz.link/p?nurikabe/3", "https://puzz.link/p?nurikabe/3/3",
             "https://puzz.link/p?nurikabe/x/3/g", "https://puzz.link/p?nurikabe/-1/3/g", "ftp://puzz.link/p?nurikabe/3/3/i", "nurikabe/3/3/i",
             "https://puzz.link/p?nosuchpuzzle/3/3/i", "https://puzz.link/p?nurikabe/٣/3/i", "https://puzz.link/p?nurikabe/3/3", "//", "https://puzz.link/p?/1/1/"]
-    sizes = [(1, 1), (1, 2), (2, 1), (2, 2), (1, 3), (3, 3)]
+    # "all declared widths/heights": zero is a declared size like any other (boards without cells)
+    sizes = [(1, 1), (1, 2), (2, 1), (2, 2), (1, 3), (3, 3), (0, 0), (0, 3), (2, 0)]
     for m in mods:
         for u in junk:
             rep.evaluations += 1
@@ -725,7 +726,7 @@ def run_c17(rep, tier, seed):
               ("OneOf", ps.OneOf(ps.Spaces(0, "g"), ps.HexInt()))]
     sample = bodies if tier != "quick" else rnd.sample(bodies, 700)
     for (tname, comb) in terms:
-        for (h, w) in [(1, 1), (1, 3), (2, 2), (3, 2)]:
+        for (h, w) in [(1, 1), (1, 3), (2, 2), (3, 2), (0, 0), (0, 2), (3, 0)]:
             for b in sample:
                 rep.evaluations += 1
                 try:
